@@ -129,6 +129,8 @@ type rewriter struct {
 	usedHooks bool
 	rep       *report
 	synth     map[ast.Stmt]bool
+	funcs     []funcRange
+	ord       map[string]int
 }
 
 func (r *rewriter) mark(s ast.Stmt) ast.Stmt {
@@ -141,13 +143,50 @@ func (r *rewriter) mark(s ast.Stmt) ast.Stmt {
 
 func (r *rewriter) short() string { return r.pkg[strings.LastIndex(r.pkg, "/")+1:] }
 
+// site names a synchronisation point by its enclosing function and the ordinal
+// of that kind of operation inside it (stable under edits elsewhere in the
+// file, unlike line numbers): "core/processors.go:both.Process:send#3".
 func (r *rewriter) site(n ast.Node, kind string) *ast.BasicLit {
-	pos := r.fset.Position(n.Pos())
 	r.sites++
 	r.rep.Sites++
 	r.rep.ByKind[kind]++
 	r.usedSim = true
-	return &ast.BasicLit{Kind: token.STRING, Value: fmt.Sprintf("%q", fmt.Sprintf("%s/%s:%d:%s", r.short(), r.file, pos.Line, kind))}
+	fn := "init"
+	for _, d := range r.funcs {
+		if n.Pos() >= d.pos && n.Pos() <= d.end {
+			fn = d.name
+		}
+	}
+	if r.ord == nil {
+		r.ord = map[string]int{}
+	}
+	r.ord[fn+":"+kind]++
+	return &ast.BasicLit{Kind: token.STRING, Value: fmt.Sprintf("%q", fmt.Sprintf("%s/%s:%s:%s#%d", r.short(), r.file, fn, kind, r.ord[fn+":"+kind]))}
+}
+
+type funcRange struct {
+	name     string
+	pos, end token.Pos
+}
+
+func (r *rewriter) indexFuncs(f *ast.File) {
+	for _, d := range f.Decls {
+		fd, ok := d.(*ast.FuncDecl)
+		if !ok {
+			continue
+		}
+		name := fd.Name.Name
+		if fd.Recv != nil && len(fd.Recv.List) > 0 {
+			t := fd.Recv.List[0].Type
+			if st, ok := t.(*ast.StarExpr); ok {
+				t = st.X
+			}
+			if id, ok := t.(*ast.Ident); ok {
+				name = id.Name + "." + name
+			}
+		}
+		r.funcs = append(r.funcs, funcRange{name, fd.Pos(), fd.End()})
+	}
 }
 
 func (r *rewriter) skip(n ast.Node, why string) {
@@ -299,6 +338,7 @@ func (r *rewriter) exprOps(n ast.Node) string {
 }
 
 func (r *rewriter) file_(f *ast.File) bool {
+	r.indexFuncs(f)
 	before := r.sites
 	changed := false
 	// seam: util.UUID
